@@ -133,6 +133,44 @@ def many_open_connections(chk, stack, callers):
         time.sleep(0.2)
 
 
+def slow_host_then_port_reuse(chk, stack, callers, what=None):
+    """a redirected connection to a host that is slow to accept (the agent's own connect to it hangs) is reset by its client; another
+    process then connects straight to the listener from the same source port: that connection has no record of its own and is refused
+    at once - the first connection's record is not still lying around while its context is being built"""
+    pid = callers.procs["curl"]["pid"]
+    host = e2e.SlowAcceptHost(e2e.OTHER[0], 8123, None)
+    try:
+        for k in range(3):
+            stack.ctl("auditclear")
+            p = 46100 + (os.getpid() + k) % 700
+            stack.ctl("audit %d 0 %d 1 %s %d" % (p, pid, e2e.OTHER[0], 8123))
+            try:
+                a = e2e.ClientConn(p, 6.0)
+            except OSError:
+                continue
+            time.sleep(0.35)                    # the agent has looked the record up and is connecting to the host (which does not answer)
+            a.close(rst=True)
+            time.sleep(0.05)
+            t0 = time.time()
+            try:
+                b = e2e.ClientConn(p, 6.0)
+                r = b.request(req_raw("slow-%d" % k), b"GET", 2.5)
+                b.close(rst=True)
+            except OSError:
+                continue
+            took = time.time() - t0
+            chk.case(nontrivial_key=("slow-host-port-reuse", k, r and r["status"]))
+            chk.count("slow_host_then_port_reuse")
+            d = {"first_connection": "redirected to a host whose listen queue is full, reset by its client after 0.35 s", "source_port": p,
+                 "second_connection": "made straight to the listener from the same port, no record written for it",
+                 "answer": r and r["status"], "seconds": round(took, 2)}
+            if r is None or r["status"] != 421:
+                chk.violation(what or "a connection without a fresh kernel record was served with an identity", d, expected="421 at once",
+                              observed="no answer within 2.5 s" if r is None else r["status"])
+    finally:
+        host.close()
+
+
 def user_per_connection(chk, stack, callers):
     """the user a record names is that connection's user, whichever users other connections resolved before it"""
     names = {uid: u["name"] for uid, u in callers.users.items()}
@@ -350,6 +388,7 @@ def run(chk):
         exec_between_connections(chk, stack)
         user_per_connection(chk, stack, callers)
         many_open_connections(chk, stack, callers)
+        slow_host_then_port_reuse(chk, stack, callers)
     finally:
         stack.close()
     chk.coverage["rule"] = ("histories of 4-14 connections over 4 source ports: attributed, direct, immediate port reuse without/with a fresh "
